@@ -165,7 +165,7 @@ func MakeRefTerm(doc, ref string) Term {
 	return Term{Kind: "ref", Doc: doc, Ref: ref, Text: text}
 }
 
-var refNames = []string{"a", "A", "x", "MIT", "MIT-Style-2", "b.c", "1", "AND", "x-or-later", "Apache-2.0"}
+var refNames = []string{"a", "A", "x", "MIT", "MIT-Style-2", "b.c", "1", "AND", "x-or-later", "Apache-2.0", "MIT-or-later", "Apache-2.0-or-later", "GPL-2.0-only", "WITH", "or-later"}
 var docNames = []string{"d", "D", "spdx-tool-1.2", "x", "LicenseRef-a"}
 
 // DrawBase draws a listed license id, biased towards ids that sit in a version family.
@@ -240,7 +240,18 @@ func (t *Tables) DrawPool(rt *rapid.T, excPool []string) []Term {
 		kind := rapid.IntRange(0, 9).Draw(rt, label+"Kind")
 		switch {
 		case kind <= 1:
-			pool = append(pool, DrawRefTerm(rt, label))
+			ref := DrawRefTerm(rt, label)
+			if len(pool) > 0 && rapid.IntRange(0, 3).Draw(rt, label+"Lookalike") == 0 {
+				// a reference whose name is the spelling of one of the case's own license terms
+				if src := rapid.SampledFrom(pool).Draw(rt, label+"LookSrc"); src.Kind == "lic" {
+					if rapid.Bool().Draw(rt, label+"LookDoc") {
+						ref = MakeRefTerm(src.Spelling, ref.Ref)
+					} else {
+						ref = MakeRefTerm(ref.Doc, src.Spelling)
+					}
+				}
+			}
+			pool = append(pool, ref)
 		case kind <= 4 && len(bases) > 0:
 			// relative of an earlier base: same id re-spelled, or another version of its family
 			b := rapid.SampledFrom(bases).Draw(rt, label+"Rel")
@@ -342,8 +353,12 @@ func (t *Tables) sibling(rt *rapid.T, e Term, excPool []string, label string) Te
 	if e.Kind == "ref" {
 		switch rapid.IntRange(0, 2).Draw(rt, label+"SibRef") {
 		case 0:
-			if e.Doc == "" {
-				return MakeRefTerm(rapid.SampledFrom(docNames).Draw(rt, label+"SibDoc"), e.Ref)
+			if e.Doc == "" || rapid.Bool().Draw(rt, label+"SibOtherDoc") {
+				d := rapid.SampledFrom(docNames).Draw(rt, label+"SibDoc")
+				if d == e.Doc {
+					d += "2"
+				}
+				return MakeRefTerm(d, e.Ref)
 			}
 			return MakeRefTerm("", e.Ref)
 		case 1:
